@@ -400,7 +400,14 @@ func ruleArgMapping(c *Ctx) {
 			continue
 		}
 		key, val := ci.Arg(0), ci.Arg(1)
-		kparts := flattenTemplate(unwrapIface(key))
+		kv := unwrapIface(key)
+		// the key may be built by a tiny private helper (positionalKey(i)): use what it returns
+		if call, isCall := resolve(kv).(*ssa.Call); isCall {
+			if h := call.Call.StaticCallee(); h != nil && h.Pkg == inj.Pkg && h.Blocks != nil && len(returnsOf(h)) == 1 {
+				kv = returnsOf(h)[0].Results[0]
+			}
+		}
+		kparts := flattenTemplate(kv)
 		if len(kparts) == 0 || !(kparts[0].hole == "" && strings.HasPrefix(kparts[0].konst, "$")) {
 			continue
 		}
@@ -419,11 +426,65 @@ func ruleArgMapping(c *Ctx) {
 				clean, why = false, "a positional argument is the result of "+o.Name
 			}
 		}
+		// an argument is positional exactly when it contains no '=': the store is reached only where that
+		// is established - directly, or through a private classifier that says "not named" only there
+		{
+			facts := factsFor(inj)
+			argv := resolve(unwrapIface(val))
+			noEq := facts.HoldsOnAllEdges(ci.Block, func(fs factSet) bool {
+				if charAbsentIn(fs, argv, '=') {
+					return true
+				}
+				for k := range fs {
+					ex, isEx := resolve(k.v).(*ssa.Extract)
+					if !isEx || k.pol {
+						continue
+					}
+					call, isCall := ex.Tuple.(*ssa.Call)
+					if !isCall {
+						continue
+					}
+					h := call.Call.StaticCallee()
+					if h == nil || h.Pkg != inj.Pkg || h.Blocks == nil {
+						continue
+					}
+					pi := -1
+					for i, a := range call.Call.Args {
+						if resolve(a) == argv {
+							pi = i
+						}
+					}
+					if pi < 0 || pi >= len(h.Params) {
+						continue
+					}
+					hf := factsFor(h)
+					good, any := true, false
+					for _, r := range returnsOf(h) {
+						if ex.Index >= len(r.Results) {
+							continue
+						}
+						if b, isC := constBool(resolve(r.Results[ex.Index])); isC && b {
+							continue
+						}
+						any = true
+						if !hf.HoldsOnAllEdges(r.Block(), func(fs2 factSet) bool { return charAbsentIn(fs2, h.Params[pi], '=') }) {
+							good = false
+						}
+					}
+					if good && any {
+						return true
+					}
+				}
+				return false
+			})
+			c.Check(noEq, "R8", "an argument is positional exactly when it has no '='", ci.Pos(), "the positional store is reached only where the argument is known to contain no '='",
+				"the positional store can be reached with an argument that contains '=' (e.g. '=raw value', or any argument the classifier mislabels) — it takes a $n slot and shifts every later positional key")
+		}
 		c.Check(clean, "R8", "positional arguments are stored unchanged", ci.Pos(), "value = the argument as split", why+" — '-5' or '-' lose their dashes")
 		// numbering: key = "$" + Itoa(counter) with counter a phi 0,+1 incremented after the store
 		okN := false
 		if len(kparts) == 2 {
-			for _, o := range Origins(kparts[1].val, FlowOpts{Transparent: func(ci *CallInfo) []ssa.Value {
+			for _, o := range Origins(kparts[1].val, FlowOpts{LiftParams: 2, Transparent: func(ci *CallInfo) []ssa.Value {
 				if ci.Static != nil && qualName(ci.Static) == "strconv.Itoa" {
 					return ci.Common.Args
 				}
@@ -486,9 +547,13 @@ func ruleArgMapping(c *Ctx) {
 	}
 	c.Check(okS, "R8", "named arguments split at the first '='", inj.Pos(), "strings.Index(arg, \"=\")", "name/value are not separated at the first '=' (a value containing '=' is cut)")
 	// every argument is mapped: no iteration of the argument loop goes round without a SetValue
+	setEv := ipEvent(func(in ssa.Instruction) bool {
+		ci := callInfo(in, nil, 0)
+		return ci != nil && ci.Method != nil && ci.Method.Name() == "SetValue"
+	}, 2)
 	hasSet := func(b *ssa.BasicBlock) bool {
 		for _, in := range b.Instrs {
-			if ci := callInfo(in, b, 0); ci != nil && ci.Method != nil && ci.Method.Name() == "SetValue" {
+			if setEv(in) {
 				return true
 			}
 		}
